@@ -445,7 +445,9 @@ func (s *Store[H]) Append(ctx context.Context, headers ...H) error {
 func (s *Store[H]) flushLoop(ctx context.Context) {
 	defer close(s.writesDn)
 
-	flush := func(headers []H) {
+	// flush queues the given headers into the pending batch and writes the batch out once it is
+	// grown enough or if forced.
+	flush := func(headers []H, force bool) {
 		s.ensureInit(headers)
 		// add headers to the pending and ensure they are accessible
 		s.pending.Append(headers...)
@@ -457,8 +459,8 @@ func (s *Store[H]) flushLoop(ctx context.Context) {
 		s.advanceHead(ctx)
 		s.recedeTail(ctx)
 		// don't flush and continue if pending batch is not grown enough,
-		// and Store is not stopping(headers == nil)
-		if s.pending.Len() < s.Params.WriteBatchSize && headers != nil {
+		// and neither Store is stopping(headers == nil) nor Sync is requested
+		if s.pending.Len() < s.Params.WriteBatchSize && !force {
 			return
 		}
 
@@ -491,7 +493,7 @@ func (s *Store[H]) flushLoop(ctx context.Context) {
 			for {
 				select {
 				case headers := <-s.writes:
-					flush(headers)
+					flush(headers, headers == nil)
 					if headers == nil {
 						// a signal to stop
 						return
@@ -500,11 +502,14 @@ func (s *Store[H]) flushLoop(ctx context.Context) {
 				default:
 				}
 
+				// Sync promises that all the pending writes are synchronized,
+				// so write out the pending batch as well
+				flush(nil, true)
 				close(dn)
 				break
 			}
 		case headers := <-s.writes:
-			flush(headers)
+			flush(headers, headers == nil)
 			if headers == nil {
 				// a signal to stop
 				return
